@@ -16,6 +16,7 @@ import (
 	"verif/internal/carrier"
 	"verif/internal/enum"
 	"verif/internal/errparse"
+	"verif/internal/lang"
 	"verif/internal/runner"
 )
 
@@ -212,6 +213,27 @@ func run(c *runner.Ctx) {
 		_ = valid.Var(nil, "email|zz")
 		return valid.Var(v.Interface(), rl)
 	}})
+	// the rules handed over one by one, the way callers collect them: Var's variadic rules, RM.Set per rule
+	cars = append(cars, carrierFn{"var-rules-one-by-one", anyV, func(v reflect.Value, rl string) error {
+		return valid.Var(v.Interface(), lang.SplitOutsideQuotes(rl, ',')...)
+	}})
+	cars = append(cars, carrierFn{"map-rm-set-per-rule", anyV, func(v reflect.Value, rl string) error {
+		rm := valid.NewRule()
+		for _, part := range lang.SplitOutsideQuotes(rl, ',') {
+			rm.Set("k", part)
+		}
+		m := reflect.MakeMap(reflect.MapOf(reflect.TypeOf(""), v.Type()))
+		m.SetMapIndex(reflect.ValueOf("k"), v)
+		return valid.Map(m.Interface(), rm)
+	}})
+	// an empty value written as a bare key (no '=') behind parameters that do have values
+	emptyV := func(v reflect.Value) bool { return v.Kind() == reflect.String && v.String() == "" }
+	cars = append(cars,
+		carrierFn{"url-bare-key-middle", emptyV, func(v reflect.Value, rl string) error { return valid.Url("http://h/p?a=12345&k&z=zz", valid.RM{"k": rl}) }},
+		carrierFn{"url-bare-key-last", emptyV, func(v reflect.Value, rl string) error { return valid.Url("http://h/p?a=12345&z=2021-09-28&k", valid.RM{"k": rl}) }},
+		carrierFn{"url-bare-key-escaped", emptyV, func(v reflect.Value, rl string) error {
+			return valid.Url(url.QueryEscape("http://h/p?a=13800138000&k&z=1"), valid.RM{"k": rl})
+		}})
 	// rules with a significant leading / trailing space in their argument survive only when nothing trims the rule text
 	// rule lists: every single rule, and every ordered pair from a reduced menu (quick) / larger menu (thorough)
 	type rlist struct {
@@ -239,6 +261,11 @@ func run(c *runner.Ctx) {
 				lists = append(lists, rlist{a + "|m1," + b + "|m2", []string{"m1", "m2"}, "pair"})
 			}
 		}
+	}
+	// bare pairs in which the text of one rule occurs inside the text of the other, both orders
+	for _, pr := range [][2]string{{"ipv4", "ip"}, {"ints", "int"}, {"datetime", "date"}, {"year2month", "year"}, {"noeq=13", "eq=1"}, {"oto=1~3", "to=1~3"}, {"include=(a)", "in=(a)"}, {"le=10", "le=1"}, {"prefix=ab", "prefix=a"}} {
+		lists = append(lists, rlist{pr[0] + "," + pr[1], nil, "pair-bare"}, rlist{pr[1] + "," + pr[0], nil, "pair-bare"},
+			rlist{pr[0] + "|m1," + pr[1] + "|m1", []string{"m1"}, "pair-same-message"})
 	}
 	c.Space("rules x values x carriers")
 	for _, rl := range lists {
